@@ -32,6 +32,10 @@ pub struct Report {
     pub distinct_by_construction: u64,
     pub inconclusive: Vec<String>,
     pub notes: Vec<String>,
+    /// complete sampled traces (inputs, outputs, reference values, online verdicts) for the
+    /// independent offline checker
+    pub traces: Vec<Value>,
+    pub trace_counts: BTreeMap<String, u32>,
 }
 
 impl Report {
@@ -67,6 +71,16 @@ impl Report {
     pub fn sample(&mut self, v: Value) {
         if self.samples.len() < MAX_SAMPLES {
             self.samples.push(v);
+        }
+    }
+    /// at most a few traces per indicator kind and per thread
+    pub fn wants_trace(&mut self, kind: &str) -> bool {
+        let c = self.trace_counts.entry(kind.to_string()).or_insert(0);
+        if *c < 2 {
+            *c += 1;
+            true
+        } else {
+            false
         }
     }
     pub fn wants_sample(&self) -> bool {
@@ -120,6 +134,14 @@ impl Report {
         }
         self.inconclusive.extend(o.inconclusive);
         self.notes.extend(o.notes);
+        for t in o.traces {
+            let k = t.get("kind").and_then(|x| x.as_str()).unwrap_or("?").to_string();
+            let c = self.trace_counts.entry(format!("merged.{}", k)).or_insert(0);
+            if *c < 8 {
+                *c += 1;
+                self.traces.push(t);
+            }
+        }
     }
     pub fn distinct_nontrivial(&self) -> u64 {
         self.distinct.len() as u64 + self.distinct_by_construction
